@@ -16,7 +16,7 @@ import (
 var Shapes = []string{
 	"text", "textcrlf", "html", "cyrillic", "cjk", "utf8big", "dna", "numeric", "base64",
 	"elfx86", "pe", "elfarm64", "elfbogus", "pebogus", "machobogus", "wav", "bmp", "ppm", "runs", "zeros",
-	"skewed", "raredom", "ramp255", "ramp256", "smallalpha", "periodic", "random", "magicmix", "repeatblocks", "sorted", "utf8dirty",
+	"skewed", "raredom", "ramp255", "ramp256", "smallalpha", "periodic", "random", "magicmix", "repeatblocks", "sorted", "utf8dirty", "longruns", "farmatch",
 }
 
 var words = strings.Fields(`the of and to a in is that it was for on are as with his they at be this from have or by one had not but what all were
@@ -150,6 +150,28 @@ func Make(shape string, n int, seed int64) []byte {
 					next = len(b) + 2000 + r.Intn(20000)
 				}
 			}
+		}
+	case "longruns":
+		// very long runs (beyond the 1/2/3-byte run length forms of the RLT family) separated by short literals
+		for len(b) < n {
+			c := byte(r.Intn(5) * 51)
+			l := []int{300, 5000, 7935, 7936, 7940, 9000, 40000, 70000, 300000}[r.Intn(9)] + r.Intn(7)
+			for k := 0; k < l && len(b) < n; k++ {
+				b = append(b, c)
+			}
+			for k := r.Intn(6); k > 0; k-- {
+				b = append(b, r.Byte())
+			}
+		}
+	case "farmatch":
+		// incompressible segment repeated at long distances (LZ / ROLZ offsets beyond 64 KiB when n allows)
+		seg := make([]byte, max(min(n/3, 200000), 1))
+		r.Fill(seg)
+		for len(b) < n {
+			b = append(b, seg...)
+			fill := make([]byte, r.Intn(1+n/10))
+			r.Fill(fill)
+			b = append(b, fill...)
 		}
 	case "dna":
 		col := 0
